@@ -229,3 +229,132 @@ def fam_sscanf(tier):
         g.add('range-lvalue', b'mixed @F(string x, int i, int j) { int c; c = sscanf("XY", "%s", x[i .. j]); return ({ c, x }); }', A)
         g.add('range-lvalue-global', b'mixed @F(string x, int i, int j) { int c; gs = x; c = sscanf("XY", "%s", gs[i .. j]); return ({ c, gs }); }', A)
         yield g
+
+
+# ------------------------------------------------------------------ macro parameter naming: every (parameter, body identifier) pair
+MNAMES = [b'i', b'id', b'idx', b'n', b'num', b'x', b'xy']
+
+
+@family('macroname')
+def fam_macroname(tier):
+    """function-like macros whose parameters and whose free body identifiers (locals of the enclosing function) come from
+    a small alphabet with proper-prefix / proper-suffix / equal / disjoint names; sibling = the hand-expanded function"""
+    scale = [b'1', b'1000', b'1000000']
+    for np_ in (1, 2, 3):
+        for ps in itertools.permutations(MNAMES, np_):
+            frees = [f for f in MNAMES if f not in ps]
+            for f in frees + [None]:
+                for layout in (0, 1):
+                    # body: free identifier weighted 10^9, parameters weighted 1, 10^3, 10^6; layout 1 puts the free one in the middle
+                    terms = [p + b' * ' + scale[k] for k, p in enumerate(ps)]
+                    fterm = [f + b' * 1000000000'] if f else []
+                    body_terms = (fterm + terms) if layout == 0 else (terms[:1] + fterm + terms[1:])
+                    body = b'(' + b' + '.join(body_terms) + b')'
+                    argv = [3, 5, 8][:np_]
+                    fval = 7
+                    refv = (fval * 10 ** 9 if f else 0) + sum(a * 1000 ** k for k, a in enumerate(argv))
+                    argn = [b'q0', b'q1', b'q2'][:np_]
+                    # hand expansion: every parameter replaced by the argument text, nothing else touched
+                    def expand(args):
+                        t = [a + b' * ' + scale[k] for k, a in enumerate(args)]
+                        bt = (fterm + t) if layout == 0 else (t[:1] + fterm + t[1:])
+                        return b'(' + b' + '.join(bt) + b')'
+                    rel = []
+                    for p in ps:
+                        for o in ([f] if f else []):
+                            rel.append('prefix' if p.startswith(o) and p != o else 'ext' if o.startswith(p) else 'suffix' if p.endswith(o) or o.endswith(p) else 'disjoint')
+                    cls = '+'.join(sorted(set(rel))) or 'nofree'
+                    g = Group('macro', 'param-names', '%dparam:%s' % (np_, cls), ('V', canon(refv)),
+                              b'#define M(' + b', '.join(ps) + b') ' + body + (b'  with local ' + f if f else b''))
+                    decl = (b'int ' + f + b' = %d; ' % fval) if f else b''
+                    qdecl = b''.join(b'int ' + q + b' = %d; ' % a for q, a in zip(argn, argv))
+                    D = b'#define @F_M(' + b', '.join(ps) + b') ' + body + b'\n'
+                    U = b'\n#undef @F_M'
+                    g.add('expansion', b'mixed @F() { ' + decl + qdecl + b'return ' + expand(argn) + b'; }')
+                    g.add('macro', D + b'mixed @F() { ' + decl + qdecl + b'return @F_M(' + b', '.join(argn) + b'); }' + U)
+                    g.add('macro-literal', D + b'mixed @F() { ' + decl + b'return @F_M(' + b', '.join(b'%d' % a for a in argv) + b'); }' + U)
+                    g.add('macro-spaced', D.replace(b'(' + b', '.join(ps) + b') ', b'( ' + b' , '.join(ps) + b' ) ', 1) + b'mixed @F() { ' + decl + qdecl + b'return @F_M( ' + b' , '.join(argn) + b' ); }' + U)
+                    g.add('expansion-literal', b'mixed @F() { ' + decl + b'return ' + expand([b'%d' % a for a in argv]) + b'; }')
+                    yield g
+    # arguments that are themselves identifiers of the alphabet (the argument text must not be rescanned for parameter names)
+    for p in MNAMES:
+        for a in MNAMES:
+            if a == p:
+                continue
+            g = Group('macro', 'param-names', 'arg-ident', ('V', canon(5 * 1000 + 2)), b'#define M(' + p + b') (' + p + b' * 1000 + 2)  called M(' + a + b')')
+            g.add('expansion', b'mixed @F() { int ' + a + b' = 5; return (' + a + b' * 1000 + 2); }')
+            g.add('macro', b'#define @F_M(' + p + b') (' + p + b' * 1000 + 2)\nmixed @F() { int ' + a + b' = 5; return @F_M(' + a + b'); }\n#undef @F_M')
+            yield g
+
+
+# ------------------------------------------------------------------ lvalue kinds back to back (the interpreter keeps shared scratch state for byte and range lvalues)
+def lv_actions():
+    """(kind, name, declaration of V, statement on V, result expression, reference thunk)"""
+    E = lambda cls: (lambda: (_ for _ in ()).throw(LErr(cls)))
+    return [
+        ('local', 'addeq', b'int V = 5; ', b'V += 3;', b'V', lambda: 8),
+        ('local', 'inc', b'int V = 5; ', b'V++;', b'V', lambda: 6),
+        ('global', 'addeq', b'', b'G = 5; G += 3;', b'G', lambda: 8),
+        ('aelem', 'addeq', b'mixed *V = ({ 5, 6 }); ', b'V[1] += 3;', b'V', lambda: [5, 9]),
+        ('aelem', 'inc', b'mixed *V = ({ 5, 6 }); ', b'V[0]++;', b'V', lambda: [6, 6]),
+        ('melem', 'addeq', b'mapping V = ([ "k": 5 ]); ', b'V["k"] += 3;', b'V', lambda: {b'k': 8}),
+        ('melem', 'store', b'mapping V = ([ "k": 5 ]); ', b'V["n"] = 1;', b'V', lambda: {b'k': 5, b'n': 1}),
+        ('schar', 'store', b'string V = "ab"; ', b"V[0] = 'X';", b'V', lambda: b'Xb'),
+        ('schar', 'inc', b'string V = "ab"; ', b'V[1]++;', b'V', lambda: b'ac'),
+        ('schar', 'subeq', b'string V = "ab"; ', b'V[1] -= 1;', b'V', lambda: b'aa'),
+        ('schar', 'store0', b'string V = "ab"; ', b'V[0] = 0;', b'V', E('other')),
+        ('schar', 'store256', b'string V = "ab"; ', b'V[0] = 256;', b'V', E('other')),
+        ('schar', 'subeq-to-0', b'string V = "ab"; ', b'V[0] -= 97;', b'V', E('other')),
+        ('schar', 'addeq-to-0', b'string V = "ab"; ', b'V[0] += 159;', b'V', E('other')),
+        ('schar', 'dec-to-0', b'string V = S1; ', b'V[0]--;', b'V', E('other')),
+        ('schar', 'predec-to-0', b'string V = S1; ', b'--V[0];', b'V', E('other')),
+        ('schar', 'inc-to-0', b'string V = S255; ', b'V[0]++;', b'V', E('other')),
+        ('schar', 'preinc-to-0', b'string V = S255; ', b'++V[0];', b'V', E('other')),
+        ('bbyte', 'store0', b'buffer V = mkbuf(({ 5, 6 })); ', b'V[0] = 0;', b'V', lambda: Buf(b'\x00\x06')),
+        ('bbyte', 'inc', b'buffer V = mkbuf(({ 5, 6 })); ', b'V[1]++;', b'V', lambda: Buf(b'\x05\x07')),
+        ('bbyte', 'inc-to-0', b'buffer V = mkbuf(({ 5, 255 })); ', b'V[1]++;', b'V', lambda: Buf(b'\x05\x00')),
+        ('bbyte', 'subeq-to-0', b'buffer V = mkbuf(({ 5, 6 })); ', b'V[0] -= 5;', b'V', lambda: Buf(b'\x00\x06')),
+        ('srange', 'shrink', b'string V = "abc"; ', b'V[0 .. 1] = "X";', b'V', lambda: b'Xc'),
+        ('srange', 'append', b'string V = "abc"; ', b'V[<0 ..] = "Z";', b'V', lambda: b'abcZ'),
+        ('srange', 'samesize', b'string V = "abc"; ', b'V[1 .. 1] = "Y";', b'V', lambda: b'aYc'),
+        ('arange', 'shrink', b'mixed *V = ({ 1, 2, 3 }); ', b'V[0 .. 1] = ({ 9 });', b'V', lambda: [9, 3]),
+        ('arange', 'samesize', b'mixed *V = ({ 1, 2, 3 }); ', b'V[1 .. 1] = ({ 8 });', b'V', lambda: [1, 8, 3]),
+        ('brange', 'shrink', b'buffer V = mkbuf(({ 1, 2, 3 })); ', b'V[0 .. 1] = mkbuf(({ 9 }));', b'V', lambda: Buf(b'\x09\x03')),
+        ('brange', 'samesize', b'buffer V = mkbuf(({ 1, 2, 3 })); ', b'V[1 .. 1] = mkbuf(({ 8 }));', b'V', lambda: Buf(b'\x01\x08\x03')),
+        ('member', 'addeq', b'class @F_c V = new(class @F_c); ', b'V->n = 5; V->n += 3;', b'V->n', lambda: 8),
+        ('member', 'mstore', b'class @F_c V = new(class @F_c); ', b'V->m = "ab"; V->m[0] = \'X\';', b'V->m', lambda: b'Xb'),
+    ]
+
+
+@family('lvseq')
+def fam_lvseq(tier):
+    acts = lv_actions()
+    for a1 in acts:
+        for a2 in acts:
+            def inst(a, k):
+                v = b'v%d' % k
+                G = b'gm' if k == 1 else b'gm2'
+                sub = lambda t: t.replace(b'V', v).replace(b'G', G)
+                return sub(a[2]), sub(a[3]), sub(a[4])
+            d1, s1, r1 = inst(a1, 1)
+            d2, s2, r2 = inst(a2, 2)
+            def ref(a1=a1, a2=a2):
+                return [a1[5](), a2[5]()]
+            def ref_sw(a1=a1, a2=a2):
+                x2 = a2[5]()
+                return [a1[5](), x2]
+            g = Group('lvseq', a1[0] + '-then-' + a2[0], 'nul-store' if _raises(a2[5]) or _raises(a1[5]) else 'store', ref_of(ref), s1 + b' ' + s2)
+            hdr = CLS + b'mixed @F(string S255, string S1) { '
+            A = b'sff62 s0162'           # "\xffb", "\x01b"
+            g.add('sequence', hdr + d1 + d2 + s1 + b' ' + s2 + b' return ({ ' + r1 + b', ' + r2 + b' }); }', A)
+            g.add('swapped', hdr + d1 + d2 + s2 + b' ' + s1 + b' return ({ ' + r1 + b', ' + r2 + b' }); }', A)
+            g.add('second-only', hdr + d2 + s2 + b' return ({ ' + lit(a1[5]()) + b', ' + r2 + b' }); }', A) if not _raises(a1[5]) else None
+            yield g
+
+
+def _raises(th):
+    try:
+        th()
+        return False
+    except LErr:
+        return True
